@@ -56,22 +56,26 @@ type placement struct {
 	// reRegister: the file is first added behind the preceding files and the reader created, then the same file is
 	// added as the only file of a FRESH set (its base offset changes back to 1) and used through that set
 	reRegister bool
+	// sharedPrefix: the set is built with NewFileSet(list...) from a caller-owned slice with spare capacity, the file is
+	// added, and then the caller builds a SECOND set from the same slice and adds a different file to that one
+	sharedPrefix bool
 }
 
 var placements = []placement{
-	{"alone", nil, false, false},
-	{"after an empty file", []int{0}, false, false},
-	{"after a 3-byte file", []int{3}, false, false},
-	{"after two empty files", []int{0, 0}, false, false},
-	{"after files of 2 and 5 bytes", []int{2, 5}, false, false},
-	{"after a 998-byte file", []int{998}, false, false},
-	{"after a 3-byte file, reader created before the file was added", []int{3}, true, false},
-	{"registered after a 5-byte file, reader created, then registered again alone in a fresh set", []int{5}, false, true},
+	{"alone", nil, false, false, false},
+	{"after an empty file", []int{0}, false, false, false},
+	{"after a 3-byte file", []int{3}, false, false, false},
+	{"after two empty files", []int{0, 0}, false, false, false},
+	{"after files of 2 and 5 bytes", []int{2, 5}, false, false, false},
+	{"after a 998-byte file", []int{998}, false, false, false},
+	{"after a 3-byte file, reader created before the file was added", []int{3}, true, false, false},
+	{"registered after a 5-byte file, reader created, then registered again alone in a fresh set", []int{5}, false, true, false},
+	{"after files of 2 and 3 bytes passed as a caller-owned list with spare capacity, from which the caller then builds another set", []int{2, 3}, false, false, true},
 	// base offsets at the widths a packed cache key or a narrowed integer might assume (stub files: no data is allocated)
-	{"after a 65535-byte file", []int{65535}, false, false},
-	{"after a 2 GiB file", []int{1<<31 - 1}, false, false},
-	{"after files of 3 bytes and 4 GiB", []int{3, 1 << 32}, false, false},
-	{"after files of 3 bytes and 8 GiB", []int{3, 1 << 33}, false, false},
+	{"after a 65535-byte file", []int{65535}, false, false, false},
+	{"after a 2 GiB file", []int{1<<31 - 1}, false, false, false},
+	{"after files of 3 bytes and 4 GiB", []int{3, 1 << 32}, false, false, false},
+	{"after files of 3 bytes and 8 GiB", []int{3, 1 << 33}, false, false, false},
 }
 
 // stubFile stands in for a huge preceding file: it only has a length.
@@ -90,6 +94,21 @@ func (f *stubFile) SetOffset(o int)               { f.offset = o }
 // returns the file, a reader on it and the expected base offset computed from
 // the documented layout (first base 1, files separated by one unused position).
 func place(pl placement, name string, content []byte) (*parsley.FileSet, *text.File, *text.Reader, int) {
+	if pl.sharedPrefix {
+		list := make([]parsley.File, 0, len(pl.preceding)+4)
+		base := 1
+		for i, l := range pl.preceding {
+			list = append(list, text.NewFile(fmt.Sprintf("pre%d", i), []byte(strings.Repeat("x", l))))
+			base += l + 1
+		}
+		fs := parsley.NewFileSet(list...)
+		f := text.NewFile(name, content)
+		fs.AddFile(f)
+		// what the caller does with its own list afterwards must not reach into the first set
+		other := parsley.NewFileSet(list...)
+		other.AddFile(text.NewFile("other", []byte("zz\nzz\nzz\nzz")))
+		return fs, f, text.NewReader(f), base
+	}
 	fs := parsley.NewFileSet()
 	base := 1
 	for i, l := range pl.preceding {
